@@ -5,7 +5,8 @@ import gen_prog, lower_common, par
 
 OL = None
 FROLES = ['none', 'read', 'assign', 'param', 'gassign', 'gread', 'nlassign', 'nlread', 'nlaug', 'gaug', 'fortarget', 'walrus', 'lamparam', 'comptarget',
-          'lamread', 'compread', 'assign_late', 'import', 'defname', 'augassign', 'classname', 'subscript_index', 'lamdefault', 'genread']
+          'lamread', 'compread', 'assign_late', 'import', 'defname', 'augassign', 'classname', 'subscript_index', 'lamdefault', 'genread',
+          'nested_comp', 'lam_in_comp', 'comp_in_lam', 'kwdefault', 'posdefault', 'lamdefault_same', 'swap']
 CROLES = ['none', 'read', 'assign', 'gassign', 'nlassign', 'read_then_assign', 'compread', 'lamread', 'fortarget', 'walrus', 'genread']
 
 
@@ -38,6 +39,13 @@ def body(kind, role, tag, ind):
         elif role == 'classname': L += [f"{p}class x: v = '{tag}'"]; log('x.v')
         elif role == 'subscript_index': L += [f"{p}d_{tag} = {{}}", f"{p}d_{tag}[x] = '{tag}'", f"{p}d_{tag}[x] += '+'"]; log(f"sorted(d_{tag}.items())")
         elif role == 'lamdefault': L += [f"{p}log('{tag}d', (lambda y=x: y)())"]
+        elif role == 'lamdefault_same': L += [f"{p}log('{tag}d', (lambda x=x: x)(), (lambda *, x=x: x)())"]
+        elif role == 'swap': L += [f"{p}y_{tag} = '{tag}y'", f"{p}x, y_{tag} = y_{tag}, x"]; log(f"(x, y_{tag})")
+        elif role == 'nested_comp': L += [f"{p}log('{tag}n', [[x for _ in [0]] for x in ['{tag}']], [[x for x in ['{tag}i']] for _ in [0]])"]
+        elif role == 'lam_in_comp': L += [f"{p}log('{tag}n', [(lambda: x)() for x in ['{tag}']], [(lambda x: [x for _ in [0]])(y) for y in ['{tag}']])"]
+        elif role == 'comp_in_lam': L += [f"{p}log('{tag}n', (lambda x: [x for _ in [0]])('{tag}'), (lambda x: (lambda: x)())('{tag}'))"]
+        elif role == 'kwdefault': L += [f"{p}def h_{tag}(*, k=x, j=0):", f"{p}    return (k, j)"]; log(f"h_{tag}()")
+        elif role == 'posdefault': L += [f"{p}def h_{tag}(a=x, /, b=x):", f"{p}    return (a, b)"]; log(f"h_{tag}()")
     else:
         if role == 'none': L.append(p + 'pass')
         elif role == 'read': L.append(f"{p}a_{tag} = x")
@@ -56,7 +64,7 @@ def body(kind, role, tag, ind):
 def post(kind, role, tag, ind):
     p = '    ' * ind
     if kind == 'f':
-        if role in ('none', 'lamparam', 'comptarget', 'lamread', 'compread', 'genread', 'lamdefault'): return []
+        if role in ('none', 'lamparam', 'comptarget', 'lamread', 'compread', 'genread', 'lamdefault', 'nested_comp', 'lam_in_comp', 'comp_in_lam', 'lamdefault_same'): return []
         if role == 'assign_late': return [f"{p}x = '{tag}'", f"{p}log('{tag}post', x)"]
         if role == 'import': return [f"{p}log('{tag}post', x.__name__)"]
         if role == 'defname': return [f"{p}log('{tag}post', x())"]
@@ -114,7 +122,7 @@ def run(code, mode):
     return out, None
 
 
-READS = {'read', 'nlread', 'lamread', 'compread', 'genread', 'nlassign', 'nlaug', 'subscript_index', 'lamdefault'}
+READS = {'read', 'nlread', 'lamread', 'compread', 'genread', 'nlassign', 'nlaug', 'subscript_index', 'lamdefault', 'kwdefault', 'posdefault', 'lamdefault_same'}
 LOCALBIND = {'assign', 'param', 'walrus', 'import', 'defname', 'assign_late', 'fortarget', 'augassign', 'classname'}
 CREADS = ('read', 'nlassign', 'compread', 'genread', 'lamread', 'read_then_assign')
 
@@ -249,9 +257,9 @@ def main(argv):
                       "k_disagreements": [{"source": s, "config": list(c), "detail": d[:400]} for s, c, d in k_bad[:10]]}, no_input=True)
     return ck.finish(
         rule="scope chains module > s0 > s1 > s2 (depth 1-2 exhaustive, depth 3 sampled (quick) / exhaustive (thorough), depth 4 sampled (thorough)); each scope a "
-             "function with one of 24 roles or a class with one of 11 roles of the tracked name x (none, read, assign, parameter, global/nonlocal declared and "
+             "function with one of 31 roles or a class with one of 11 roles of the tracked name x (none, read, assign, parameter, global/nonlocal declared and "
              "assigned / read / augmented, for target, walrus, lambda parameter / default / read, comprehension target / read, generator read, late assignment, "
-             "import, def name, class name, augmented assignment, subscript index) x module-level binding present or not; filtered to programs CPython compiles and runs "
+             "import, def name, class name, augmented assignment, subscript index, nested comprehension / lambda shadowing, keyword-only and positional default) x module-level binding present or not; filtered to programs CPython compiles and runs "
              "without exception; observed: values logged at every scope + final module x; failures inside the syntactic shape classes of the open known findings "
              "are attributed to them; distinct by (config, source)",
         extra={"R_failures": len(failing), "K_disagreements": len(k_bad), "by_shape_class": {k: dict(v) for k, v in by_class.items()}},
